@@ -17,6 +17,7 @@ def run(ck):
         "parser_output_wf (the parsers only emit tables) belongs to C03/C06/C16",
     ]
     ck.coq_props()
+    ic.run_regions(ck, "C02")
     res = ic.run_level1(ck, "C02")
     if res is None:
         return
